@@ -9,15 +9,16 @@ Inductive c13case :=
 | CEmsg (id : Z) (segStart segEnd ts n : Z) (o : obs)                       (* direct call of CreateEmsgAhead *)
 | CPayload (id : Z) (p : siparams) (odata : list Z)                         (* direct call of CreateSpliceInsertPayload *)
 | CSeg (id : Z) (isVideo : bool) (scte : option Z) (segStart dur ts : Z) (o : obs)  (* served segment *)
+| CChunk (id : Z) (isVideo : bool) (scte : option Z) (segStart dur ts : Z) (o : obs) (* served segment, chunked low-latency delivery *)
 | CCfg (id : Z) (scte : option Z) (ostatus : Z)                             (* 200 / 400 of a request *)
 | CMpd (id : Z) (isVideo : bool) (scte : option Z) (oinband : bool)         (* adaptation set of the MPD *)
-| CConst (id : Z) (offs1 offs2 offs3 : list Z) (ad1 ad2 ad3 lead minute clock ptsbits : Z).
+| CConst (id : Z) (offs1 offs2 offs3 : list Z) (ad1 ad2 ad3 lead minute clock ptsbits next : Z).
     (* literal operands of CreateEmsgAhead read from pkg/scte35/scte35.go of the tree under test *)
 
 Definition c_id (c : c13case) : Z :=
   match c with
-  | CEmsg id _ _ _ _ _ | CPayload id _ _ | CSeg id _ _ _ _ _ _ | CCfg id _ _ | CMpd id _ _ _
-  | CConst id _ _ _ _ _ _ _ _ _ _ => id
+  | CEmsg id _ _ _ _ _ | CPayload id _ _ | CSeg id _ _ _ _ _ _ | CChunk id _ _ _ _ _ _ | CCfg id _ _ | CMpd id _ _ _
+  | CConst id _ _ _ _ _ _ _ _ _ _ _ => id
   end.
 
 Definition obs_of (r : res (option emsg)) : obs :=
@@ -36,32 +37,33 @@ Definition obs_eqb (a b : obs) : bool :=
 (** the constants the model is written with, in the order of [CConst] *)
 Definition model_consts : list (list Z) :=
   let offs n := match splice_offsets n with Some l => l | None => [] end in
-  [offs 1; offs 2; offs 3; [ad_seconds 1; ad_seconds 2; ad_seconds 3; announce_lead; minute_s; pts_clock; Z.log2 two33]].
+  [offs 1; offs 2; offs 3; [ad_seconds 1; ad_seconds 2; ad_seconds 3; announce_lead; minute_s; pts_clock; Z.log2 two33; next_minute_first]].
 
 Definition model_obs (c : c13case) : obs :=
   match c with
   | CEmsg _ s e ts n _ => obs_of (createEmsgAhead s e ts n)
-  | CSeg _ v scte s d ts _ => obs_of (segment_emsg v scte s d ts)
+  | CSeg _ v scte s d ts _ => obs_of (delivered_emsg false v scte s d ts)
+  | CChunk _ v scte s d ts _ => obs_of (delivered_emsg true v scte s d ts)
   | CPayload _ p _ =>
     {| o_class := 1; o_ts := 0; o_pt := 0; o_dur := 0; o_id := 0; o_data := createSpliceInsertPayload p |}
   | CCfg _ scte _ =>
     {| o_class := cfg_scte_status scte; o_ts := 0; o_pt := 0; o_dur := 0; o_id := 0; o_data := [] |}
   | CMpd _ v scte _ =>
     {| o_class := if inband_event_stream v scte then 1 else 0; o_ts := 0; o_pt := 0; o_dur := 0; o_id := 0; o_data := [] |}
-  | CConst _ _ _ _ _ _ _ _ _ _ _ =>
+  | CConst _ _ _ _ _ _ _ _ _ _ _ _ =>
     {| o_class := 5; o_ts := 0; o_pt := 0; o_dur := 0; o_id := 0; o_data := concat model_consts |}
   end.
 
 Definition observed (c : c13case) : obs :=
   match c with
-  | CEmsg _ _ _ _ _ o | CSeg _ _ _ _ _ _ o => o
+  | CEmsg _ _ _ _ _ o | CSeg _ _ _ _ _ _ o | CChunk _ _ _ _ _ _ o => o
   | CPayload _ _ d => {| o_class := 1; o_ts := 0; o_pt := 0; o_dur := 0; o_id := 0; o_data := d |}
   | CCfg _ _ st => {| o_class := st; o_ts := 0; o_pt := 0; o_dur := 0; o_id := 0; o_data := [] |}
   | CMpd _ _ _ b => {| o_class := if b then 1 else 0; o_ts := 0; o_pt := 0; o_dur := 0; o_id := 0; o_data := [] |}
-  | CConst _ o1 o2 o3 a1 a2 a3 lead minute clock bits =>
+  | CConst _ o1 o2 o3 a1 a2 a3 lead minute clock bits next =>
     {| o_class := if (lenZ o1 =? 1) && (lenZ o2 =? 2) && (lenZ o3 =? 3) then 5 else 6;
        o_ts := 0; o_pt := 0; o_dur := 0; o_id := 0;
-       o_data := o1 ++ o2 ++ o3 ++ [a1; a2; a3; lead; minute; clock; bits] |}
+       o_data := o1 ++ o2 ++ o3 ++ [a1; a2; a3; lead; minute; clock; bits; next] |}
   end.
 
 Definition case_ok (c : c13case) : bool := obs_eqb (model_obs c) (observed c).
